@@ -210,19 +210,24 @@ pub open spec fn pk_obtained(pks: Seq<PublicKeyEncryptedSessionKey>, m: int, cer
 }
 
 // ------------------------------------------------------------------ one SKESK against the presented message passwords
-/// the first presented password from index `from` on for which the SKESK yields a session key (a password that yields Err is skipped, not fatal);
-/// a v5 SKESK (GnuPG, LibrePGP) is only looked at when gnupg_aead is enabled
-pub open spec fn pw_first(s: SymKeyEncryptedSessionKey, mpws: Seq<&Password>, from: int, gnupg: bool) -> Option<(usize, PlainSessionKey)>
+/// what the presented passwords from index `from` on yield on one SKESK: (index of the password, session key), in order.
+/// A password that yields Err is skipped, not fatal.  With abort_early the first password that yields a key wins and the rest is not tried;
+/// without it EVERY presented password is tried, so that every key a password yields enters the comparison.
+/// A v5 SKESK (GnuPG, LibrePGP) is only looked at when gnupg_aead is enabled
+pub open spec fn pws_on(s: SymKeyEncryptedSessionKey, mpws: Seq<&Password>, from: int, gnupg: bool, abort_early: bool) -> Seq<(usize, PlainSessionKey)>
     decreases mpws.len() - from
 {
-    if from < 0 || from >= mpws.len() { None }
-    else if !gnupg && skesk_ver(s) == SkeskVersion::V5 { None }
-    else { match skesk_pw_decrypt(s, *mpws[from]) { Ok(sk) => Some((from as usize, sk)), Err(_) => pw_first(s, mpws, from + 1, gnupg) } }
+    if from < 0 || from >= mpws.len() { Seq::empty() }
+    else if !gnupg && skesk_ver(s) == SkeskVersion::V5 { Seq::empty() }
+    else { match skesk_pw_decrypt(s, *mpws[from]) {
+        Ok(sk) => if abort_early { seq![(from as usize, sk)] } else { seq![(from as usize, sk)] + pws_on(s, mpws, from + 1, gnupg, abort_early) },
+        Err(_) => pws_on(s, mpws, from + 1, gnupg, abort_early),
+    } }
 }
-pub open spec fn sk_obtained(sks: Seq<SymKeyEncryptedSessionKey>, m: int, mpws: Seq<&Password>, gnupg: bool) -> Seq<(usize, PlainSessionKey)>
+pub open spec fn sk_obtained(sks: Seq<SymKeyEncryptedSessionKey>, m: int, mpws: Seq<&Password>, gnupg: bool, abort_early: bool) -> Seq<(usize, PlainSessionKey)>
     decreases m
 {
-    if m <= 0 { Seq::empty() } else { sk_obtained(sks, m - 1, mpws, gnupg) + opt_seq(pw_first(sks[m - 1], mpws, 0, gnupg)) }
+    if m <= 0 { Seq::empty() } else { sk_obtained(sks, m - 1, mpws, gnupg, abort_early) + pws_on(sks[m - 1], mpws, 0, gnupg, abort_early) }
 }
 
 // ------------------------------------------------------------------ consistency
@@ -268,6 +273,76 @@ pub proof fn lemma_conflict_within_kind_is_conflict(p: Seq<(usize, PlainSessionK
     if !all_same(x) {
         let (i, j) = choose|i: int, j: int| 0 <= i < x.len() && 0 <= j < x.len() && sk_val(#[trigger] x[i]) != sk_val(#[trigger] x[j]);
         assert(all[snd(p).len() + snd(s).len() + i] == x[i] && all[snd(p).len() + snd(s).len() + j] == x[j]);
+    }
+}
+/// first representatives of two kinds that differ are a disagreement among all obtained keys
+pub proof fn lemma_heads_differ_is_conflict(p: Seq<(usize, PlainSessionKey)>, s: Seq<(usize, PlainSessionKey)>, x: Seq<PlainSessionKey>)
+    ensures ((p.len() > 0 && s.len() > 0 && sk_val(p[0].1) != sk_val(s[0].1))
+        || (p.len() > 0 && x.len() > 0 && sk_val(p[0].1) != sk_val(x[0]))
+        || (s.len() > 0 && x.len() > 0 && sk_val(s[0].1) != sk_val(x[0]))) ==> !all_same(all_obtained(p, s, x))
+{
+    let all = all_obtained(p, s, x);
+    let np = snd(p).len() as int; let ns = snd(s).len() as int;
+    if p.len() > 0 { assert(all[0] == p[0].1); }
+    if s.len() > 0 { assert(all[np] == s[0].1); }
+    if x.len() > 0 { assert(all[np + ns] == x[0]); }
+}
+/// the key the search settles on is the first of all obtained keys
+pub proof fn lemma_first_of_is_first(p: Seq<(usize, PlainSessionKey)>, s: Seq<(usize, PlainSessionKey)>, x: Seq<PlainSessionKey>)
+    ensures
+        all_obtained(p, s, x).len() == p.len() + s.len() + x.len(),
+        first_of(snd(p), snd(s), x) == (if all_obtained(p, s, x).len() > 0 { Some(all_obtained(p, s, x)[0]) } else { None }),
+{
+    let all = all_obtained(p, s, x);
+    if p.len() > 0 { assert(all[0] == snd(p)[0]); }
+    else if s.len() > 0 { assert(all[0] == snd(s)[0]); }
+    else if x.len() > 0 { assert(all[0] == x[0]); }
+}
+/// C18: every presented password that yields a session key on an SKESK of the message yields a key of value `sk`
+pub open spec fn passwords_agree_with(sks: Seq<SymKeyEncryptedSessionKey>, mpws: Seq<&Password>, gnupg: bool, sk: PlainSessionKey) -> bool {
+    forall|e: int, j: int| (0 <= e < sks.len() && 0 <= j < mpws.len() && (gnupg || skesk_ver(sks[e]) != SkeskVersion::V5) && (#[trigger] skesk_pw_decrypt(sks[e], *mpws[j])) is Ok)
+        ==> sk_val(skesk_pw_decrypt(sks[e], *mpws[j])->Ok_0) == sk_val(sk)
+}
+/// [C18] without abort_early: if all obtained keys agree, every presented password that yields a key on an SKESK yields the key that is used
+pub proof fn lemma_passwords_agree(p: Seq<(usize, PlainSessionKey)>, sks: Seq<SymKeyEncryptedSessionKey>, mpws: Seq<&Password>, gnupg: bool, x: Seq<PlainSessionKey>)
+    requires all_same(all_obtained(p, sk_obtained(sks, sks.len() as int, mpws, gnupg, false), x)), all_obtained(p, sk_obtained(sks, sks.len() as int, mpws, gnupg, false), x).len() > 0
+    ensures passwords_agree_with(sks, mpws, gnupg, all_obtained(p, sk_obtained(sks, sks.len() as int, mpws, gnupg, false), x)[0])
+{
+    let so = sk_obtained(sks, sks.len() as int, mpws, gnupg, false);
+    let all = all_obtained(p, so, x);
+    assert forall|e: int, j: int| (0 <= e < sks.len() && 0 <= j < mpws.len() && (gnupg || skesk_ver(sks[e]) != SkeskVersion::V5) && (#[trigger] skesk_pw_decrypt(sks[e], *mpws[j])) is Ok)
+        implies sk_val(skesk_pw_decrypt(sks[e], *mpws[j])->Ok_0) == sk_val(all[0]) by {
+        lemma_sk_obtained_complete(sks, sks.len() as int, mpws, gnupg, e, j);
+        let k = choose|k: int| 0 <= k < so.len() && #[trigger] so[k] == (j as usize, skesk_pw_decrypt(sks[e], *mpws[j])->Ok_0);
+        assert(all[snd(p).len() + k] == snd(so)[k]);
+        assert(snd(so)[k] == so[k].1);
+    }
+}
+/// keys that agree inside each kind, and whose first representatives agree pairwise across the kinds, all agree
+pub proof fn lemma_all_same_from_kinds(p: Seq<(usize, PlainSessionKey)>, s: Seq<(usize, PlainSessionKey)>, x: Seq<PlainSessionKey>)
+    ensures (all_same(snd(p)) && all_same(snd(s)) && all_same(x)
+        && (p.len() > 0 && s.len() > 0 ==> sk_val(p[0].1) == sk_val(s[0].1))
+        && (p.len() > 0 && x.len() > 0 ==> sk_val(p[0].1) == sk_val(x[0]))
+        && (s.len() > 0 && x.len() > 0 ==> sk_val(s[0].1) == sk_val(x[0]))) ==> all_same(all_obtained(p, s, x))
+{
+    let all = all_obtained(p, s, x);
+    let np = snd(p).len() as int; let ns = snd(s).len() as int;
+    if all_same(snd(p)) && all_same(snd(s)) && all_same(x)
+        && (p.len() > 0 && s.len() > 0 ==> sk_val(p[0].1) == sk_val(s[0].1))
+        && (p.len() > 0 && x.len() > 0 ==> sk_val(p[0].1) == sk_val(x[0]))
+        && (s.len() > 0 && x.len() > 0 ==> sk_val(s[0].1) == sk_val(x[0])) {
+        // every element has the value of the first element of its kind
+        assert forall|i: int| 0 <= i < all.len() implies
+            (i < np ==> sk_val(#[trigger] all[i]) == sk_val(snd(p)[0]))
+            && (np <= i < np + ns ==> sk_val(all[i]) == sk_val(snd(s)[0]))
+            && (np + ns <= i ==> sk_val(all[i]) == sk_val(x[0])) by {
+            if i < np { assert(all[i] == snd(p)[i]); }
+            else if i < np + ns { assert(all[i] == snd(s)[i - np]); }
+            else { assert(all[i] == x[i - np - ns]); }
+        }
+        if np > 0 { assert(snd(p)[0] == p[0].1); }
+        if ns > 0 { assert(snd(s)[0] == s[0].1); }
+        assert forall|i: int, j: int| 0 <= i < all.len() && 0 <= j < all.len() implies sk_val(#[trigger] all[i]) == sk_val(#[trigger] all[j]) by {}
     }
 }
 /// the comparison the code makes: every later key against the first one
@@ -401,32 +476,77 @@ pub proof fn lemma_subs_first_sound(p: PublicKeyEncryptedSessionKey, subs: Seq<S
         }
     }
 }
-/// [C18] every password is tried on every SKESK until one yields a session key; passwords that yield Err (wrong password on an integrity-protected
-/// v6 SKESK; implausible result on a v4 SKESK) are skipped, not fatal
-pub proof fn lemma_pw_first_complete(s: SymKeyEncryptedSessionKey, mpws: Seq<&Password>, from: int, gnupg: bool, j: int, sk: PlainSessionKey)
+/// [C18] abort_early: the first presented password that yields a session key on the SKESK wins; passwords that yield Err before it (wrong password on an
+/// integrity-protected v6 SKESK; implausible result on a v4 SKESK) are skipped, not fatal
+pub proof fn lemma_pws_on_first_wins(s: SymKeyEncryptedSessionKey, mpws: Seq<&Password>, from: int, gnupg: bool, j: int, sk: PlainSessionKey)
     requires
         0 <= from <= j < mpws.len(), j <= usize::MAX,
         gnupg || skesk_ver(s) != SkeskVersion::V5,
         forall|i: int| from <= i < j ==> skesk_pw_decrypt(s, *#[trigger] mpws[i]) is Err,
         skesk_pw_decrypt(s, *mpws[j]) == Ok::<PlainSessionKey, errors::Error>(sk),
-    ensures pw_first(s, mpws, from, gnupg) == Some((j as usize, sk))
+    ensures pws_on(s, mpws, from, gnupg, true) == seq![(j as usize, sk)]
     decreases j - from
 {
-    if from < j { lemma_pw_first_complete(s, mpws, from + 1, gnupg, j, sk); }
+    if from < j { lemma_pws_on_first_wins(s, mpws, from + 1, gnupg, j, sk); }
 }
-/// [C18] a session key obtained from an SKESK is what THAT packet yields for a PRESENTED password, and no earlier presented password yields anything on it
-pub proof fn lemma_pw_first_sound(s: SymKeyEncryptedSessionKey, mpws: Seq<&Password>, from: int, gnupg: bool)
-    requires 0 <= from <= mpws.len() <= usize::MAX
-    ensures pw_first(s, mpws, from, gnupg) matches Some(x) ==> from <= x.0 < mpws.len() && skesk_pw_decrypt(s, *mpws[x.0 as int]) == Ok::<PlainSessionKey, errors::Error>(x.1)
-        && (forall|i: int| from <= i < x.0 ==> skesk_pw_decrypt(s, *#[trigger] mpws[i]) is Err) && (gnupg || skesk_ver(s) != SkeskVersion::V5)
+/// [C18] without abort_early EVERY presented password that yields a session key on the SKESK contributes that key (so that it is compared)
+pub proof fn lemma_pws_on_complete(s: SymKeyEncryptedSessionKey, mpws: Seq<&Password>, from: int, gnupg: bool, j: int)
+    requires
+        0 <= from <= j < mpws.len(),
+        gnupg || skesk_ver(s) != SkeskVersion::V5,
+        skesk_pw_decrypt(s, *mpws[j]) is Ok,
+    ensures exists|k: int| 0 <= k < pws_on(s, mpws, from, gnupg, false).len() && #[trigger] pws_on(s, mpws, from, gnupg, false)[k] == (j as usize, skesk_pw_decrypt(s, *mpws[j])->Ok_0)
+    decreases j - from
+{
+    let cur = pws_on(s, mpws, from, gnupg, false);
+    if from == j {
+        assert(cur[0] == (j as usize, skesk_pw_decrypt(s, *mpws[j])->Ok_0));
+    } else {
+        lemma_pws_on_complete(s, mpws, from + 1, gnupg, j);
+        let rest = pws_on(s, mpws, from + 1, gnupg, false);
+        let k = choose|k: int| 0 <= k < rest.len() && #[trigger] rest[k] == (j as usize, skesk_pw_decrypt(s, *mpws[j])->Ok_0);
+        if skesk_pw_decrypt(s, *mpws[from]) is Ok { assert(cur[k + 1] == rest[k]); } else { assert(cur[k] == rest[k]); }
+    }
+}
+/// [C18] a session key obtained from an SKESK is what THAT packet yields for a PRESENTED password
+pub proof fn lemma_pws_on_sound(s: SymKeyEncryptedSessionKey, mpws: Seq<&Password>, from: int, gnupg: bool, abort_early: bool, k: int)
+    requires 0 <= from <= mpws.len() <= usize::MAX, 0 <= k < pws_on(s, mpws, from, gnupg, abort_early).len()
+    ensures ({
+        let x = pws_on(s, mpws, from, gnupg, abort_early)[k];
+        from <= x.0 < mpws.len() && skesk_pw_decrypt(s, *mpws[x.0 as int]) == Ok::<PlainSessionKey, errors::Error>(x.1) && (gnupg || skesk_ver(s) != SkeskVersion::V5)
+    })
     decreases mpws.len() - from
 {
-    if from < mpws.len() && (gnupg || skesk_ver(s) != SkeskVersion::V5) && skesk_pw_decrypt(s, *mpws[from]) is Err {
-        lemma_pw_first_sound(s, mpws, from + 1, gnupg);
-        if pw_first(s, mpws, from, gnupg) is Some {
-            let x = pw_first(s, mpws, from, gnupg)->Some_0;
-            assert(pw_first(s, mpws, from + 1, gnupg) == Some(x));
-            assert forall|i: int| from <= i < x.0 implies skesk_pw_decrypt(s, *#[trigger] mpws[i]) is Err by {}
+    if from < mpws.len() && (gnupg || skesk_ver(s) != SkeskVersion::V5) {
+        if skesk_pw_decrypt(s, *mpws[from]) is Ok {
+            if !abort_early && k > 0 {
+                lemma_pws_on_sound(s, mpws, from + 1, gnupg, abort_early, k - 1);
+                assert(pws_on(s, mpws, from, gnupg, abort_early)[k] == pws_on(s, mpws, from + 1, gnupg, abort_early)[k - 1]);
+            }
+        } else {
+            lemma_pws_on_sound(s, mpws, from + 1, gnupg, abort_early, k);
         }
+    }
+}
+/// [C18] without abort_early, every presented password that yields a session key on an SKESK of the message is among the obtained keys
+pub proof fn lemma_sk_obtained_complete(sks: Seq<SymKeyEncryptedSessionKey>, m: int, mpws: Seq<&Password>, gnupg: bool, e: int, j: int)
+    requires
+        0 <= e < m <= sks.len(), 0 <= j < mpws.len(),
+        gnupg || skesk_ver(sks[e]) != SkeskVersion::V5,
+        skesk_pw_decrypt(sks[e], *mpws[j]) is Ok,
+    ensures exists|k: int| 0 <= k < sk_obtained(sks, m, mpws, gnupg, false).len() && #[trigger] sk_obtained(sks, m, mpws, gnupg, false)[k] == (j as usize, skesk_pw_decrypt(sks[e], *mpws[j])->Ok_0)
+    decreases m
+{
+    let prev = sk_obtained(sks, m - 1, mpws, gnupg, false);
+    let cur = sk_obtained(sks, m, mpws, gnupg, false);
+    if e == m - 1 {
+        lemma_pws_on_complete(sks[e], mpws, 0, gnupg, j);
+        let on = pws_on(sks[e], mpws, 0, gnupg, false);
+        let k = choose|k: int| 0 <= k < on.len() && #[trigger] on[k] == (j as usize, skesk_pw_decrypt(sks[e], *mpws[j])->Ok_0);
+        assert(cur[prev.len() + k] == on[k]);
+    } else {
+        lemma_sk_obtained_complete(sks, m - 1, mpws, gnupg, e, j);
+        let k = choose|k: int| 0 <= k < prev.len() && #[trigger] prev[k] == (j as usize, skesk_pw_decrypt(sks[e], *mpws[j])->Ok_0);
+        assert(cur[k] == prev[k]);
     }
 }
